@@ -726,8 +726,8 @@ func main() {
 	add("signrnd", false, r.N(100, 1500), 50)
 	add("ssign", false, r.N(100, 1500), 50)
 	add("recov", false, r.N(600, 10000), 100)
-	add("schnorre", false, r.N(1500, 20000), 250)
-	add("ecmneg", false, r.N(1500, 20000), 250)
+	add("schnorre", false, r.N(600, 20000), 100)
+	add("ecmneg", false, r.N(600, 20000), 100)
 	// sweeps (sweep.go): long incremental runs of valid inputs + their minimal invalid sibling, for defects
 	// that need 10^4..10^5 inputs to show (un-normalised field elements read by IsOdd/Equals)
 	add("sweep-tweak", false, r.N(120000, 1500000), 4000)
